@@ -6,6 +6,9 @@
 set -u
 ID="$1"; TIER="${2:-quick}"
 export GOFLAGS=-mod=mod GOPROXY=off GOSUMDB=off GOTOOLCHAIN=local
+# the SDK's keyring dependency dials the D-Bus session bus in an init() and would auto-launch
+# one dbus-daemon per process; a dead address makes that dial fail at once instead
+export DBUS_SESSION_BUS_ADDRESS=unix:path=/nonexistent DISABLE_KWALLET=1
 cd /verif/harness || exit 2
 cp /repo/go.sum go.sum
 mkdir -p /verif/.build
